@@ -141,6 +141,11 @@ var edgeForms = []string{
 	"%s [amd64 i386]",
 	"%s [!i386] | zz-other",
 	"zz-other [i386 armhf] | ${foo:Depends} | %s (>= 2) | zz-other2",
+	// a multiarch qualifier says which architecture's build of the binary is wanted; it is a build-dependency on that
+	// binary all the same
+	"%s:native",
+	"%s:any (>= 1.0)",
+	"%s:i386 [amd64]",
 }
 
 // ways to mention package b in a relation that must NOT create an edge on amd64
@@ -504,7 +509,7 @@ func main() {
 	out := map[string]interface{}{
 		"bound": fmt.Sprintf("build-dependency graphs: every edge set (no self-edges) over 1..4 sources (%d edge sets, DAG and cyclic) x %d seeded realisations each, plus %d sampled edge sets over 5..%d sources (half forced acyclic); %d of the cases are cyclic. "+
 			"Realisation: 1..3 binaries per source (Binary: pa, libpa, pa-doc; 3-element lists folded over two lines half the time), each edge a build-dependency on one of the target's binaries in one of Build-Depends / -Arch / -Indep written in one of %d forms "+
-			"(plain, versioned, after an alternative excluded by [!amd64], behind a substvar alternative, with admitting arch lists, mixed), non-edges mentioned in 1/3 of the cases in one of %d forms that must not count (first applicable alternative outside the set, arch list excluding amd64), "+
+			"(plain, versioned, after an alternative excluded by [!amd64], behind a substvar alternative, with admitting arch lists, mixed, with a multiarch qualifier :native / :any / :i386), non-edges mentioned in 1/3 of the cases in one of %d forms that must not count (first applicable alternative outside the set, arch list excluding amd64), "+
 			"relations sometimes folded; sources given in a seeded random input order; arch amd64; each case run 3 times. "+
 			"ADDED name families (the cases above keep the names pa, pb, ...: %d cases): every edge set over 2..4 sources x %d realisation(s) for each of %d families of source names, plus %d sampled edge sets over 5..%d sources (3/4 forced acyclic) spread over the families (%v cases per family). "+
 			"Families = names that are prefixes/suffixes of each other and for which different (provider, dependent) pairs give the same string when joined without or with a separator: "+
